@@ -35,9 +35,10 @@ def run_batch(binary, reqs, env=None, per_timeout=30):
     while i < len(reqs):
         chunk = reqs[i:]
         rc, out, err = vlib.run_lines(binary, chunk, timeout=per_timeout + 60 + 0.02 * len(chunk), env=env)
+        if rc != 0:
+            while out and out[-1] == "":      # no (or an unfinished) answer line for the request that killed the driver
+                out.pop()
         n = min(len(out), len(chunk))
-        if rc != 0 and n > 0 and n == len(out) and not chunk[n - 1:n] == [] and rc == -9:
-            pass
         for k in range(n):
             res[i + k] = ("ok", out[k])
         if n == len(chunk) and rc == 0:
@@ -288,7 +289,7 @@ def gen_docs(chk):
     add("command-unknown-tool", with_section(base, "commands", M(("c1", M(("tool", S("no-such-tool")))), ("c2", M(("tool", S("shell")))))))
     add("command-duplicate", with_section(base, "commands", M(("c1", M(("tool", S("shell")), ("args", S("a")))), ("c1", M(("tool", S("shell")), ("args", S("b")))),
                                                               ("c3", M(("tool", S("phony")))))))
-    add("command-bad-then-good", with_section(base, "commands", M(("c0", M(("args", S("x")), ("inputs", Q(M(("deep", Q(S("x"))))))))), ("c1", M(("tool", S("shell")), ("args", S("x")))))))
+    add("command-bad-then-good", with_section(base, "commands", M(("c0", M(("args", S("x")), ("inputs", Q(M(("deep", Q(S("x")))))))), ("c1", M(("tool", S("shell")), ("args", S("x")))))))
     for t in TOOLS:
         add("command-tool-only:%s" % t, with_section(base, "commands", M(("c1", M(("tool", S(t)))))))
         add("command-typical:%s" % t, with_section(base, "commands", M(("c1", M(("tool", S(t)), ("inputs", Q(S("a"), S("b"))), ("outputs", Q(S("o"))))))))
